@@ -192,7 +192,11 @@ def run_cases(run, builds, cfg, max_real=60, max_near=14, tag="c08"):
         paths = G.all_paths(r["tree"])
         real = sorted(set(".".join(p) for p, _ in paths))
         if len(real) > max_real:
-            real = sorted(rng.sample(real, max_real))
+            prio = [x for x in real if G.priority_selector(x)]
+            if len(prio) > max_real // 2:
+                prio = rng.sample(prio, max_real // 2)
+            rest = [x for x in real if x not in set(prio)]
+            real = sorted(prio + rng.sample(rest, min(len(rest), max_real - len(prio))))
         near = G.near_misses(rng, r["tree"], paths, 6)
         if len(near) > max_near:
             near = near[:4] + rng.sample(near[4:], max_near - 4)
